@@ -302,6 +302,86 @@ def shrink_session(case: dict) -> dict:
     return small
 
 
+# ------------------------------------------------------------------ same kind, different declarations
+
+def declared_case(r) -> dict:
+    """2-3 functions for the SAME apiVersion and kind whose apiConfig declares a different `namespaced` and/or
+    `plural` — all prepared (in every order over the runs), but only those reconciled whose declaration is the one
+    the kind was first registered with (the others are somebody's mistake; preparing them must not disturb anyone)"""
+    namespaced = r.random() < 0.7
+    n = r.choice((2, 2, 3))
+    progs = []
+    for i in range(n):
+        p = {"namespaced": namespaced, "tmplForm": "inline", "edits": [], "benign": [],
+             "flags": {"owned": r.random() < 0.7}, "name": NAMES[i], "present": r.random() < 0.5}
+        if i > 0 or r.random() < 0.3:
+            how = r.choice(("scope", "plural", "both", "same"))
+            if how in ("scope", "both"):
+                p["declNamespaced"] = not namespaced
+            if how in ("plural", "both"):
+                p["declPlural"] = "otherplurals"
+        for layer in g.LAYERS:
+            if r.random() < 0.15:
+                p["edits"].append({"layer": layer, "kind": r.choice(KINDS), "via": r.random() < 0.4})
+        progs.append(p)
+    order = list(range(n))
+    r.shuffle(order)
+    return {"declared": progs, "order": order}
+
+
+def run_declared(case: dict) -> list:
+    """[(prog as run, build+obs)] for the functions whose declaration equals the first prepared one's"""
+    progs = with_prefix([case["declared"][i] for i in case["order"]], fresh_prefix())
+    decl = [(p.get("declNamespaced", p["namespaced"]), p.get("declPlural")) for p in progs]
+    first = decl[0]
+    for p, d in zip(progs, decl):
+        p["namespaced"] = first[0]          # the kind is what its FIRST registration in the process says …
+        if first[1]:
+            p["regPlural"] = first[1]
+        p["declNamespaced"] = d[0]          # … whatever this function declares
+        if d[0] and not first[0]:
+            p["apiNs"] = g.NS               # (declaring a namespaced kind needs a namespace to get prepared at all)
+    which = [i for i, d in enumerate(decl) if d == first]
+    for i, p in enumerate(progs):
+        p["stored"] = live_object_for(p, i) if p.get("present") else None
+    builds = g.prepare_all_reconcile_some(progs, which)
+    return [(progs[i], b) for i, b in zip(which, builds)]
+
+
+def declared_bad(case: dict, runs: list | None = None):
+    for q, b in (runs if runs is not None else run_declared(case)):
+        bad = oracle(q, b)
+        if bad:
+            others = [p for p in case["declared"] if "declNamespaced" in p or "declPlural" in p]
+            return (f"function for {b['name']!r} (another function of the kind, declaring "
+                    f"{[{k: p[k] for k in ('declNamespaced', 'declPlural') if k in p} for p in others]}, was prepared "
+                    f"in the same process): {bad}")
+    return None
+
+
+def shrink_declared(case: dict) -> dict:
+    small = copy.deepcopy(case)
+    i = 0
+    while len(small["declared"]) > 2 and i < len(small["declared"]):
+        trial = copy.deepcopy(small)
+        del trial["declared"][i]
+        trial["order"] = [k for k in range(len(trial["declared"]))]
+        for perm in itertools.permutations(range(len(trial["declared"]))):
+            t2 = dict(trial, order=list(perm))
+            if declared_bad(t2):
+                small = t2
+                break
+        else:
+            i += 1
+    for j in range(len(small["declared"])):
+        for k, v in (("edits", []), ("flags", {"owned": True}), ("present", False)):
+            trial = copy.deepcopy(small)
+            trial["declared"][j][k] = v
+            if trial != small and declared_bad(trial):
+                small = trial
+    return small
+
+
 # ------------------------------------------------------------------ several reconciles in flight at once
 
 NAMES = ("obj-a", "obj-b", "obj-c")
@@ -448,7 +528,7 @@ def run(tier: str) -> int:
             ck.evaluated()
             ck.count(f"corpus:{f.name}")
             bad = session_bad(case) if "session" in case else concurrent_bad(case) if "concurrent" in case else \
-                oracle(case["prog"], g.run_program(case["prog"]))
+                declared_bad(case) if "declared" in case else oracle(case["prog"], g.run_program(case["prog"]))
             if bad:
                 ck.violate(case, bad)
 
@@ -571,6 +651,40 @@ def run(tier: str) -> int:
                             "session request: method/endpoint/version/name/namespace-argument/body-identity")
     ck.cov["sessions"] = n_sessions
 
+    # ---- several functions of the same apiVersion/kind that declare a different scope / plural
+    n_declared = 80 if tier == "quick" else 800
+    for _ in range(n_declared):
+        case = declared_case(r)
+        runs = run_declared(case)
+        ck.count(f"declared-differently:prepared {len(case['declared'])}, reconciled {len(runs)}")
+        try:
+            d_answers = drv.ask([b["model"] for _, b in runs])
+        except Exception:
+            d_answers = [None] * len(runs)
+        bad = declared_bad(case, runs)
+        if bad:
+            if len(ck.violations) < 5:
+                small = shrink_declared(case)
+                ck.violate(small, declared_bad(small) or bad)
+            elif len(ck.violations) < 40:
+                ck.violate(case, bad)
+        for (q, b), ans in zip(runs, d_answers):
+            ck.evaluated()
+            obs = b["obs"]
+            req = g.impl_request(obs) if obs["prepared"] else None
+            if isinstance(req, dict) and req["method"] in ("POST", "PATCH"):
+                ck.nontriv(g.dumps(["declared", case, q["suffix"], req["method"]]))
+            if ans is None or "error" in ans or not obs["prepared"]:
+                continue
+            want = model_request(ans, b, q)
+            if want == "skip" or (obs["raised"] and want is None):
+                continue
+            mine = request_obs(req)
+            if want != mine or obs["raised"]:
+                ck.disagree(case, want, {"request": mine, "raised": obs["raised"]},
+                            "same kind declared differently: method/endpoint/version/name/namespace-argument/body-identity")
+    ck.cov["declared_sessions"] = n_declared
+
     # ---- several reconciles of one kind in flight at once
     n_groups = 150 if tier == "quick" else 2000
     for _ in range(n_groups):
@@ -637,7 +751,9 @@ def run(tier: str) -> int:
              "koreo's own FunctionTest runner tests (real prepare_function_test / run_function_test, currentResource with "
              "or without metadata.namespace) between their prepare and their reconcile, or BEFORE the function is "
              "re-prepared / another function of the kind is prepared (garbage collector held off so that whatever the "
-             "test runner registered with kr8s is alive exactly then); plus groups of 2-3 "
+             "test runner registered with kr8s is alive exactly then); plus 2-3 functions of the SAME apiVersion/kind "
+             "whose apiConfig declares a different `namespaced` / `plural`, all prepared in a random order and only those "
+             "reconciled that declare what the kind was first registered with; plus groups of 2-3 "
              "reconciles of one kind (different names / namespaces, one function with different inputs or different "
              "functions) in flight together under the virtual-time loop with every API call suspending — every request "
              "must carry the identity of its own reconcile; non-trivial = a POST or PATCH was sent by a program with an "
@@ -656,6 +772,9 @@ def replay(path: str) -> int:
         elif "concurrent" in case:
             bad = concurrent_bad(case)
             print("replay (reconciles in flight together):", json.dumps(case), "::", bad)
+        elif "declared" in case:
+            bad = declared_bad(case)
+            print("replay (functions of one kind declaring different scope/plural):", json.dumps(case), "::", bad)
         else:
             prog = case["prog"]
             b = g.run_program(prog)
@@ -664,9 +783,10 @@ def replay(path: str) -> int:
         rc = rc or (1 if bad else 0)
     for d in data.get("no_longer_checks", []):
         if d.get("kind") == "correspondence" and isinstance(d.get("case"), dict) and \
-                ("session" in d["case"] or "concurrent" in d["case"]):
+                ("session" in d["case"] or "concurrent" in d["case"] or "declared" in d["case"]):
             case = d["case"]
-            bad = session_bad(case) if "session" in case else concurrent_bad(case)
+            bad = session_bad(case) if "session" in case else concurrent_bad(case) if "concurrent" in case else \
+                declared_bad(case)
             print("replay (model/implementation, several functions):", json.dumps(case)[:800], "oracle ::", bad,
                   "model ->", json.dumps(d.get("model"), default=str)[:600], "impl ->", json.dumps(d.get("impl"), default=str)[:600])
             rc = 1
